@@ -331,6 +331,11 @@ func runExecWithRetries(ctx context.Context, node Node, item Result) (any, error
 		maxRetries = retryable.GetMaxRetries()
 		wait = retryable.GetWait()
 	}
+	if maxRetries < 1 {
+		// A budget below 1 still means one attempt: never report an item as
+		// processed without having executed it.
+		maxRetries = 1
+	}
 
 	var execResult any
 	var execErr error
